@@ -28,6 +28,7 @@ type c06Scenario struct {
 	Name      string
 	Producers [][]int
 	FailS3    bool
+	FailStore bool // the metadata-store offset update may fail (the broker logs it and still acknowledges)
 	Delay     bool // delay bounding for the larger concurrent history
 }
 
@@ -36,6 +37,8 @@ func c06Scenarios() []c06Scenario {
 		{Name: "1p-2req", Producers: [][]int{{1, 2}}, FailS3: true},
 		{Name: "1p-3req", Producers: [][]int{{1, 2, 1}}, FailS3: true},
 		{Name: "2p-1req", Producers: [][]int{{1}, {2}}, FailS3: true},
+		// the very first flush of a partition: the metadata offset is still 0 when its update fails or the broker stops
+		{Name: "1p-2req-storefail", Producers: [][]int{{1, 2}}, FailStore: true},
 		// one flush in upload while two producers wait for it: the waiters' wake-up order and re-checks
 		{Name: "3p-1req", Producers: [][]int{{1}, {2}, {1}}, Delay: true},
 	}
@@ -60,7 +63,7 @@ func c06Body(sc c06Scenario, verbose bool) func(s *sched.Sched) {
 			s3.FailOn["UploadIndex"] = true
 		}
 		inner := metadata.NewInMemoryStore(vMeta(map[string]int{"t": 1}))
-		store := &vStore{Store: inner, S3: s3, CrashUpd: true}
+		store := &vStore{Store: inner, S3: s3, CrashUpd: true, FailUpd: sc.FailStore}
 		h := vNewHandler(store, s3)
 		h.logConfig.Buffer.FlushInterval = 0
 		h.logConfig.ReadAheadSegments = 0
